@@ -463,6 +463,18 @@ func (sim) Generate(prop, tier string, seed uint64) *core.Plan {
 				group++
 			}
 		}
+		if r.Chance(1, 12) {
+			// several callers use Batch at the same time: bbolt combines them
+			// into one transaction and re-runs the others when one fails
+			n := int64(r.Range(2, 4))
+			mask := int64(r.Intn(1 << uint(n)))
+			if r.Chance(1, 3) {
+				mask = 0
+			}
+			p.Ops = append(p.Ops, core.Op{K: "bgroup", T: group, A: []int64{n, mask, int64(group)}})
+			applyBatchGroup(committed, n, mask, int64(group))
+			group++
+		}
 		api := r.Weighted(apiW)
 		out := r.Weighted(outW)
 		readOnly := api == apiView || api == apiReadTx
@@ -539,4 +551,30 @@ func b2i(b bool) int64 {
 		return 1
 	}
 	return 0
+}
+
+// bgBucket is the top-level bucket the concurrent Batch callers write to.
+const bgBucket = "bgroup"
+
+// batchCallerKeys lists the pairs caller i of batch group seq writes.
+func batchCallerKeys(seq int64, i int) [][2]string {
+	var out [][2]string
+	for j := 0; j < 1+i%3; j++ {
+		out = append(out, [2]string{fmt.Sprintf("g%d-c%d-%d", seq, i, j), fmt.Sprintf("v%d.%d.%d", seq, i, j)})
+	}
+	return out
+}
+
+// applyBatchGroup is the statement applied to the model: callers whose
+// function returns nil have all of their writes applied, the others none.
+func applyBatchGroup(m *dbmodel.Bucket, n, mask, seq int64) {
+	for i := 0; i < int(n); i++ {
+		if mask&(1<<uint(i)) != 0 {
+			continue
+		}
+		b, _ := m.CreateBucketIfNotExists(bgBucket)
+		for _, kv := range batchCallerKeys(seq, i) {
+			b.Put(kv[0], []byte(kv[1]))
+		}
+	}
 }
